@@ -3621,6 +3621,13 @@ where
             }
         }
 
+        // splits off the first token of a line; tokens are
+        // separated by one or more blanks or tabs
+        fn split_token(s: &str) -> Option<(&str, &str)> {
+            s.split_once([' ', '\t'])
+                .map(|(token, rest)| (token, rest.trim_start()))
+        }
+
         let mut wip_track: Option<WipTrack<INDEX_MAX, O>> = None;
 
         let mut parsed = ParsedCuesheet {
@@ -3630,7 +3637,7 @@ where
 
         for line in cuesheet.lines() {
             let line = line.trim();
-            match line.split_once(' ').unwrap_or((line, "")) {
+            match split_token(line).unwrap_or((line, "")) {
                 ("CATALOG", "") => return Err(CuesheetError::CatalogMissingNumber),
                 ("CATALOG", number) => match parsed.catalog_number {
                     Some(_) => return Err(CuesheetError::MultipleCatalogNumber),
@@ -3640,7 +3647,7 @@ where
                 },
                 ("TRACK", rest) => {
                     if let Some(finished) = wip_track.replace(WipTrack::new(
-                        rest.split_once(' ')
+                        split_token(rest)
                             .ok_or(CuesheetError::InvalidTrack)?
                             .0
                             .parse()
@@ -3653,9 +3660,8 @@ where
                     }
                 }
                 ("INDEX", rest) => {
-                    let (number, offset) = rest
-                        .split_once(' ')
-                        .ok_or(CuesheetError::InvalidIndexPoint)?;
+                    let (number, offset) =
+                        split_token(rest).ok_or(CuesheetError::InvalidIndexPoint)?;
 
                     let number: u8 = number
                         .parse()
@@ -3725,7 +3731,8 @@ where
                         ISRC::String(_) => return Err(CuesheetError::MultipleISRC),
                     }
                 }
-                ("FLAGS", "PRE") => {
+                // a FLAGS line lists one or more flags, PRE among them or not
+                ("FLAGS", flags) if flags.split_whitespace().any(|flag| flag == "PRE") => {
                     let wip_track = wip_track.as_mut().ok_or(CuesheetError::PrematureFlags)?;
 
                     if !wip_track.index_points.is_empty() {
